@@ -21,6 +21,9 @@ MUTANTS = [
     M("epub-all-instead-of-any", EP, "            if any(not _is_font_obfuscation(e) for e in encrypted):", "            if encrypted and all(not _is_font_obfuscation(e) for e in encrypted):", "C08-CONST"),
     M("epub-aes-counts-as-obfuscation", EP, '        "http://ns.adobe.com/pdf/enc#RC",\n', '        "http://ns.adobe.com/pdf/enc#RC",\n        "http://www.w3.org/2001/04/xmlenc#aes256-cbc",\n', "C08-CONST"),
     M("xls-writeprot-record", EN, "        if record_id == 0x002F:  # FILEPASS\n", "        if record_id in (0x002F, 0x0086):  # FILEPASS\n", "C08-CONST"),
+    M("7z-aes-header-generic-error", "sharepoint2text/parsing/extractors/util/sevenzip.py", "            raise Encrypted7zFile(\"Encrypted archives are not supported\")", "            raise Bad7zFile(\"Encrypted archives are not supported\")", "C08-OVER"),
+    M("7z-encrypted-handler-after-generic", "sharepoint2text/parsing/extractors/archive_extractor.py", "    except Encrypted7zFile as e:\n        # With encrypted file names already the header cannot be read\n        raise ExtractionFileEncryptedError(\n            \"Encrypted/password-protected 7z archives are not supported\"\n        ) from e\n    except Bad7zFile as e:\n        raise ExtractionFailedError(f\"Invalid 7z archive: {e}\", cause=e) from e\n", "    except Bad7zFile as e:\n        raise ExtractionFailedError(f\"Invalid 7z archive: {e}\", cause=e) from e\n    except Encrypted7zFile as e:\n        raise ExtractionFileEncryptedError(\n            \"Encrypted/password-protected 7z archives are not supported\"\n        ) from e\n", "C08-OVER"),
+    M("7z-encrypted-class-also-for-unsupported", "sharepoint2text/parsing/extractors/util/sevenzip.py", "        raise Bad7zFile(f\"Unsupported compression method: {coder_id.hex()}\")", "        raise Encrypted7zFile(f\"Unsupported compression method: {coder_id.hex()}\")", "C08-OVER"),
 ]
 TWINS = [
     T("detector-result-in-variable", X + "ms_legacy/ppt_extractor.py", "        if is_ppt_encrypted(file_like):\n            raise ExtractionFileEncryptedError(\"PPT is encrypted or password-protected\")", "        if is_ppt_encrypted(file_like):\n            logger.debug(\"encrypted ppt\")\n            raise ExtractionFileEncryptedError(\"PPT is encrypted or password-protected\")"),
